@@ -24,6 +24,7 @@ KindInfo(k) ==
     [] k = "2unk" -> [type |-> 2, id |-> "Z", wellformed |-> TRUE]
     [] k = "2bad" -> [type |-> 2, id |-> "B", wellformed |-> FALSE]    \* message out of range for the key
     [] k = "1okB" -> [type |-> 1, id |-> "B", wellformed |-> TRUE]     \* a type-1 key whose id ends like the type-2 key's
+    [] k = "1okC" -> [type |-> 1, id |-> "A", wellformed |-> TRUE]     \* ANOTHER type-1 key whose id ends like key k1's
 
 \* An issuer: type, truncated key id, key, and whether it is a stub that
 \* always fails (standing for any evaluation error).
@@ -35,6 +36,10 @@ ConfigOf(c) ==
     [] c = "t2only"     -> <<Iss(2, "B", "k2", FALSE)>>
     [] c = "firstfails" -> <<Iss(1, "A", "kx", TRUE), Iss(1, "A", "k1", FALSE), Iss(2, "B", "kx", TRUE), Iss(2, "B", "k2", FALSE)>>
     [] c = "crosscollide" -> <<Iss(2, "B", "k2", FALSE), Iss(1, "B", "k1b", FALSE)>>   \* truncated ids collide across types
+    \* truncated ids collide WITHIN a type (two keys, e.g. a rotation): the request carries one byte of the key id, so
+    \* the first configured issuer with that byte answers every such request - also those made for the other key
+    [] c = "samecollide"  -> <<Iss(1, "A", "k1", FALSE), Iss(1, "A", "k1c", FALSE)>>
+    [] c = "samecollide2" -> <<Iss(1, "A", "k1c", FALSE), Iss(1, "A", "k1", FALSE), Iss(2, "B", "k2", FALSE)>>
     [] c = "none"       -> <<>>
 
 VARIABLES cfg, reqs, phase, slots, wire, decoded, finalized
@@ -74,7 +79,7 @@ DecodeList ==
 
 \* finalizing slot j with request state j: a present response finalizes iff it
 \* answers request j (under the key that request was created for)
-ExpectedKey(k) == IF k = "1okB" THEN "k1b" ELSE IF KindInfo(k).type = 1 THEN "k1" ELSE "k2"
+ExpectedKey(k) == IF k = "1okB" THEN "k1b" ELSE IF k = "1okC" THEN "k1c" ELSE IF KindInfo(k).type = 1 THEN "k1" ELSE "k2"
 FinalizeSlot(j) ==
   IF decoded[j] = Absent THEN "absent"
   ELSE IF decoded[j][4] = j /\ decoded[j][3] = ExpectedKey(reqs[j]) THEN "token" ELSE "error"
@@ -99,9 +104,15 @@ Servable(c, k) == \E i \in 1..Len(ConfigOf(c)) :
 PresentIff == phase \in {"decoded", "done"} =>
    \A j \in 1..Len(reqs) : (decoded[j] # Absent) <=> Servable(cfg, reqs[j])
 
+\* Named deviation (inherent in the one-byte key id, not a defect): when two configured issuers of one type share the
+\* truncated id, the FIRST answers, and a request made for the other key gets an answer its client refuses.
+AnsweredByOtherKey(c, k) ==
+  LET s == FillSlot(c, k, 1) IN s # Absent /\ s[3] # ExpectedKey(k)
+
 \* a present entry finalizes to a valid token under its own request's state
 PresentFinalizes == phase = "done" =>
-   \A j \in 1..Len(reqs) : finalized[j] = (IF Servable(cfg, reqs[j]) THEN "token" ELSE "absent")
+   \A j \in 1..Len(reqs) : finalized[j] = (IF ~Servable(cfg, reqs[j]) THEN "absent"
+                                           ELSE IF AnsweredByOtherKey(cfg, reqs[j]) THEN "error" ELSE "token")
 
 \* a failing request never changes the entries of the others: slot j is a
 \* function of the configuration and request j alone
